@@ -360,6 +360,13 @@ func goDiv(a, b *Term) *Term {
 
 func (x *Exec) evalComposite(n *ast.CompositeLit, st *St, fr *Frame, addr bool, k kval) {
 	ty := fr.typeOf(n)
+	if p, ok := ty.Underlying().(*types.Pointer); ok {
+		// elided &T in a slice/map literal of pointers
+		if _, isStruct := p.Elem().Underlying().(*types.Struct); isStruct {
+			ty = p.Elem()
+			addr = true
+		}
+	}
 	switch u := ty.Underlying().(type) {
 	case *types.Struct:
 		// evaluate the field values in order
